@@ -1,6 +1,6 @@
     requires old(self).wf(), within_limits(key@, value@),
     ensures
-        final(self).wf(), // [C09:wf] [C02:wf-dirty-flag-makes-persist-flush]
+        final(self).wf(), // [C09:wf] [C02:wf-dirty-flag-makes-persist-flush] [C13:wf-dirty-flag-makes-persist-flush]
         final(self).appended(old(self)), // [C02:append-only] [C03:append-only]
         r is Ok ==> final(self).file.logical() == old(self).file.logical()
             + enc_batch(seqno, seq![OpV::Item { keyspace_id, key: key@, value: value@, value_type }], old(self).compression, old(self).compression_threshold), // [C03:batch-framing] [C15:compressor-choice] [C01:journaled-op]
